@@ -1817,6 +1817,66 @@ fn run_r6(ctx: &mut Ctx, keys: &[&K], k4: &K, k6: &K) {
 
 // ---------------------------------------------------------------------------------------------
 
+/// R2 on the third-party certification path: the version-alignment rule concerns the *signer* of a
+/// certification, whatever the version of the certified key. Signer and signee of every version
+/// pairing; signature version aligned with the signer (must verify) or not (must be refused).
+fn run_r2_third_party(ctx: &mut Ctx, keys: &[&K]) {
+    for signer in keys {
+        for signee in keys {
+            if signer.fp == signee.fp {
+                continue;
+            }
+            if !ctx.mine() {
+                continue;
+            }
+            let uid = UserId::from_str(PacketHeaderVersion::New, String::from_utf8_lossy(&signee.uid)).expect("uid");
+            let uid_body = uid.to_bytes().unwrap_or_default();
+            for sig_v in [4u8, 6] {
+                let aligned = (sig_v == 6) == (signer.v == 6);
+                let case = format!("signer-v{}-signee-v{}-sig-v{}", signer.v, signee.v, sig_v);
+                let mut hashed = sp(2, false, &CTIME.to_be_bytes());
+                // issuer fingerprint subpacket in the version that matches the signature version
+                // (so that only the key/signature alignment rule decides)
+                if (sig_v == 6) == (signer.v == 6) {
+                    let mut fpb = vec![signer.v];
+                    fpb.extend_from_slice(&signer.fp);
+                    hashed.extend(sp(33, false, &fpb));
+                }
+                let salt = if sig_v == 6 { salt_for(signer.hash, 0x10) } else { vec![] };
+                let rs = tmpl(sig_v, 0x10, signer.alg, signer.hash, hashed, vec![], salt);
+                let content = [rfc::sig::key_hash_framing(&signee.pbody), rfc::sig::uid_hash_framing(sig_v, false, &uid_body)];
+                let body = match make_sig(&signer.ssk.primary_key, rs, &[&content[0], &content[1]]) {
+                    Ok(b) => b,
+                    Err(e) => {
+                        ctx.inconclusive(format!("third-party cert build: {e}"));
+                        continue;
+                    }
+                };
+                let res = lib_sig(&body).and_then(|s| {
+                    s.verify_third_party_certification(&signee.spk.primary_key, &signer.spk.primary_key, Tag::UserId, &uid).map_err(es)
+                });
+                ctx.eval();
+                ctx.cover(&("R2-third-party", &signer.name, &signee.name, sig_v));
+                ctx.seen("R2.third-party", format!("signer-v{}-signee-v{}-{}", signer.v, signee.v, if aligned { "aligned" } else { "misaligned" }));
+                let replay = json!({"rule": "R2", "path": "third-party-certification", "case": case, "signer": signer.name, "signee": signee.name, "sig": hexs(&body)});
+                match (aligned, res) {
+                    (true, Err(e)) => ctx.violation(
+                        format!("C15/R2/third-party-certification/signer-v{}-signee-v{}/rejected-unexpectedly", signer.v, signee.v),
+                        format!("a v{sig_v} certification by a v{} key over a v{} key was refused: {e}", signer.v, signee.v),
+                        replay,
+                    ),
+                    (false, Ok(())) => ctx.violation(
+                        format!("C15/R2/third-party-certification/signer-v{}-signee-v{}/accepted", signer.v, signee.v),
+                        format!("a v{sig_v} certification by a v{} key (version-misaligned) over a v{} key was accepted", signer.v, signee.v),
+                        replay,
+                    ),
+                    _ => {}
+                }
+            }
+        }
+    }
+}
+
 pub fn run(ctx: &mut Ctx) {
     ctx.exhaustive = true;
     if let Err(e) = librepgp_selfcheck() {
@@ -1896,6 +1956,7 @@ pub fn run(ctx: &mut Ctx) {
     run_r1(ctx, &rcpts);
     lap(ctx, "R1");
     run_r2(ctx, &refs, k4, k6);
+    run_r2_third_party(ctx, &refs);
     lap(ctx, "R2");
     run_r3(ctx, &refs);
     lap(ctx, "R3");
